@@ -1,13 +1,17 @@
 package props
 
-import "verif/internal/an"
+import (
+	"go/ast"
+
+	"verif/internal/an"
+)
 
 func init() {
 	register(&Property{
-		ID:        "C06",
-		Technique: "static analysis: dominance/path search on a labelled CFG (ordering of durable effects on the persist/apply/snapshot/restart path), guard implication by truth table, argument provenance on canonical terms",
+		ID:          "C06",
+		Technique:   "static analysis: dominance/path search on a labelled CFG (ordering of durable effects on the persist/apply/snapshot/restart path), guard implication by truth table, argument provenance on canonical terms",
 		Explanation: "Decides the ordering obligations named in the property's anchors on every path: (S1) the snapshot file is written and fsynced before its WAL marker; (S2) in the snapshot goroutine SaveSnap < Sync < Release < UpdateSnapshotState < Compact, each predecessor successful, and for an incoming snapshot persist < Sync < raftDone < ApplySnapshot < Release; (S3) at start the engine data is cleaned or restored from the snapshot's checkpoint before the node is (re)started, and only snapshots at or below the WAL's commit index are considered; (S4) apply completion (snapshot trigger, applyWaitDone, snapshot restore) is reported only after raft persistence was signalled; (S5) the replay boundary is the last WAL entry; (S6) the checkpoint data is complete before the raft snapshot that names it is created and saved. (S6, write-back) the same HLL registration rule as C14-B1: an acknowledged PFADD is in the dirty cache that is flushed before the checkpoint named by the snapshot.",
-		NotDecided: "end-to-end equality of served data with the acknowledged history, every crash instant (only the order of durable effects is decided, not their atomicity), purge timing, rsync transfer, engine behaviour.",
+		NotDecided:  "end-to-end equality of served data with the acknowledged history, every crash instant (only the order of durable effects is decided, not their atomicity), purge timing, rsync transfer, engine behaviour.",
 		Assumptions: []string{
 			"calls to Panic*/Fatal* logger methods do not return",
 			"an edge taken only when an error variable is non-nil is an error path, provided the variable is never assigned the literal nil",
@@ -72,6 +76,16 @@ func runC06(c *Ctx) {
 		r.ArgValues("C06-S6", u, an.Call("raft.IExtRaftStorage.CreateSnapshot"), 2, []string{"data"}, 1)
 	}
 	hllWriteBack(c, "C06-S6")
+	// the flush of the dirty HLL cache precedes the checkpoint request, and it is the *current* cache that is flushed
+	// (reOpenEng replaces the cache object on every restore)
+	if u := c.unit("C06-S6", "rockredis.(*RockDB).Backup"); u != nil {
+		fl := an.Call("rockredis.(*hllCache).Flush")
+		r.Order("C06-S6", u, an.Send("recv.backupC"), []an.M{fl}, an.OrderOpts{Min: 1})
+		for _, s := range u.Match(fl) {
+			sel, ok := s.Call.Fun.(*ast.SelectorExpr)
+			r.Check("C06-S6", u.Name+": the cache flushed is the store's current one (recv.hllCache)", u.Pos(s.Pos), ok && u.C.Term(sel.X) == "recv.hllCache", "")
+		}
+	}
 	// the snapshot goroutine reads the checkpoint result only after the checkpoint is complete (same rule as C14-B2)
 	if u := c.unit("C06-S6", "rockredis.(*BackupInfo).GetResult"); u != nil {
 		r.Order("C06-S6", u, an.Return(), []an.M{an.Recv("recv.done")}, an.OrderOpts{Min: 1})
